@@ -980,8 +980,8 @@ fn run_c19(ch: &mut Choices, rep: &mut RunReport) -> Outcome {
                     let (_, mut old) = live.remove(t);
                     // the old connection must be gone
                     let mut old_closed = false;
-                    for _ in 0..5 {
-                        match old.recv(Duration::from_millis(200)).await {
+                    for _ in 0..2000 {
+                        match old.recv(Duration::from_millis(500)).await {
                             Rx::Closed => {
                                 old_closed = true;
                                 break;
